@@ -175,9 +175,21 @@ pub struct RunObs {
     pub verdict: String,
     pub steps: Vec<Step>,
     pub outstanding_at_finish: usize,
+    /// panics in any thread during the run (a panicking worker never delivers its result)
+    pub worker_panics: u64,
+    /// tasks that began but neither sent nor panicked shortly after `run` returned
+    pub stragglers: usize,
     pub outputs: BTreeMap<usize, Option<String>>,
     pub log: Vec<String>,
     pub spawn_counts: BTreeMap<(String, u8), usize>,
+}
+
+pub static PANICS: std::sync::atomic::AtomicU64 = std::sync::atomic::AtomicU64::new(0);
+
+pub fn install_panic_counter() {
+    std::panic::set_hook(Box::new(|_| {
+        PANICS.fetch_add(1, std::sync::atomic::Ordering::SeqCst);
+    }));
 }
 
 pub struct Explorer {
@@ -347,9 +359,25 @@ impl Explorer {
             verbosity: Verbosity::Quiet,
             trailing_newline: true,
         };
+        let panics_before = PANICS.load(std::sync::atomic::Ordering::SeqCst);
         let r = Txtpp::run(config);
         done_flag.store(true, std::sync::atomic::Ordering::SeqCst);
         txtpp::verif::sched::install(None);
+        // `run` joins the pool before it returns: afterwards no task may still be running, and none may have panicked
+        let mut stragglers = 0usize;
+        {
+            let t0 = std::time::Instant::now();
+            loop {
+                let g = ctl.m.lock().unwrap();
+                stragglers = g.tasks.values().filter(|t| t.ph != Ph::Sent && t.ph != Ph::Queued).count();
+                drop(g);
+                if stragglers == 0 || t0.elapsed() > std::time::Duration::from_millis(1500) {
+                    break;
+                }
+                std::thread::sleep(std::time::Duration::from_millis(5));
+            }
+        }
+        let worker_panics = PANICS.load(std::sync::atomic::Ordering::SeqCst) - panics_before;
         let verdict = match &r {
             Ok(()) => "ok".to_string(),
             Err(e) => {
@@ -374,6 +402,8 @@ impl Explorer {
             verdict,
             steps: g.steps.clone(),
             outstanding_at_finish: g.outstanding_at_finish,
+            worker_panics,
+            stragglers,
             outputs,
             log,
             spawn_counts,
@@ -438,20 +468,17 @@ pub fn oracles(w: &GWorld, inputs: &[usize], stale: bool, obs: &RunObs) -> Vec<S
     if cyclic && obs.verdict == "ok" {
         f.push("C05: a required file reaches a dependency cycle but the run reports success".to_string());
     }
-    if !cyclic && obs.verdict == "circular" {
-        f.push("C05: circular-dependency failure although no required file reaches a cycle".to_string());
-    }
     if !fails && !cyclic && obs.verdict != "ok" {
-        f.push(format!("C03: nothing fails and there is no cycle, but the run ends with `{}`", obs.verdict));
+        f.push(format!("C03/C05: nothing fails and no required file reaches a cycle, but the run ends with a failure (`{}`)", obs.verdict));
     }
-    if !fails && cyclic && obs.verdict != "circular" {
-        f.push(format!("C05: a cycle is reachable and nothing else fails, but the verdict is `{}`", obs.verdict));
-    }
-    if obs.verdict != "err" && obs.outstanding_at_finish > 0 {
+    if obs.verdict == "ok" && obs.outstanding_at_finish > 0 {
         f.push(format!("C03: the coordinator returned while {} task(s) were still in flight", obs.outstanding_at_finish));
     }
-    // C02 / C03 / C05: bytes of every required file that cannot reach a cycle
-    if obs.verdict != "err" {
+    if obs.worker_panics > 0 {
+        f.push(format!("C18/C03: {} thread(s) panicked during the run (a worker that panics never delivers its result; after an error `run` must still wait for its workers)", obs.worker_panics));
+    }
+    // C02 / C03 / C05: bytes of every required file that cannot reach a cycle (when no task failed)
+    if !fails {
         let mut memo = BTreeMap::new();
         for x in &required {
             if rc[*x] {
@@ -614,6 +641,7 @@ pub fn run(args: &Args, property: &str) -> Report {
         if property == "C02" { "acyclic only" } else { "cyclic included" },
         if property == "C04" { "; one file of each project fails before or after its dependency directives" } else { "" }
     );
+    install_panic_counter();
     let ex = Explorer::new(args, &property.to_lowercase(), property);
     let mut reqs: Vec<String> = vec![];
     let mut pend: Vec<(GWorld, Vec<usize>, usize, bool, Vec<usize>, RunObs)> = vec![];
@@ -655,7 +683,8 @@ pub fn run(args: &Args, property: &str) -> Report {
     // trace correspondence with the Lean model
     let resp = model.batch(&reqs);
     for (r, (w, inputs, threads, stale, taken, obs)) in resp.iter().zip(pend.iter()) {
-        let imp = format!("{} {}", obs.verdict, show_steps(&obs.steps));
+        let imp = format!("{} {}", if obs.verdict == "circular" { "err" } else { &obs.verdict }, show_steps(&obs.steps));
+        let r = &r.replacen("circular ", "err ", 1);
         if *r != imp {
             rep.violation(
                 "divergence",
@@ -808,7 +837,8 @@ pub fn run_scan(args: &Args, property: &str) -> Report {
     }
     let resp = model.batch(&reqs);
     for (r, (case, obs)) in resp.iter().zip(pend.iter()) {
-        let imp = format!("{} {}", obs.verdict, show_steps(&obs.steps));
+        let imp = format!("{} {}", if obs.verdict == "circular" { "err" } else { &obs.verdict }, show_steps(&obs.steps));
+        let r = &r.replacen("circular ", "err ", 1);
         if *r != imp {
             rep.violation(
                 "divergence",
@@ -845,7 +875,8 @@ pub fn replay(args: &Args, property: &str, path: &Path) -> Report {
         rep.violation("oracle", &failure, &format!("{}# {}\n", case_string(&w, &inputs, threads, stale, &taken), failure));
     }
     let r = model.batch(&[model_request(&w, &inputs, threads, &taken, &obs.steps)]);
-    let imp = format!("{} {}", obs.verdict, show_steps(&obs.steps));
+    let imp = format!("{} {}", if obs.verdict == "circular" { "err" } else { &obs.verdict }, show_steps(&obs.steps));
+    let r = vec![r[0].replacen("circular ", "err ", 1)];
     if r[0] != imp {
         rep.violation("divergence", &format!("implementation `{imp}`, model `{}`", r[0]), &case_string(&w, &inputs, threads, stale, &taken));
     }
